@@ -48,6 +48,25 @@ def render(res, n):
     elif res == "macro_call_commas":
         # n empty arguments: params_ptr[256]
         src = h + ".macro mcc(a)\n.db 1\n.endm\nmcc(" + "," * n + ")\n"
+    elif res == "macro_param_count":
+        # n parameters, the last one used (parameter numbers are stored in one byte)
+        src = h + ".macro mpc(" + ", ".join("p%d" % i for i in range(n)) + ")\n.db p0, p%d\n.endm\nmpc(" % (n - 1) + ", ".join(str(i % 200) for i in range(n)) + ")\n"
+    elif res == "empty_define_uses":
+        # n uses of a define without a value on one line (every expansion is a nested read)
+        src = h + ".define EMPTYQ\n.db 1 " + "EMPTYQ " * n + "\n"
+    elif res == "equ_recursion":
+        src = h + ("RQ equ RQ\n.db RQ\n" if n <= 1 else "RQ equ RS\nRS equ RQ\n.db RQ\n")
+    elif res == "out_path":
+        # an output path of n characters (components of at most 200), with a listing (its name is derived from it)
+        comps = []
+        left = n - len("/o.hex")
+        while left > 0:
+            comps.append("d" * min(200, left - 1 if left > 1 else 1))
+            left -= len(comps[-1]) + 1
+        path = "/".join(comps) + "/o.hex"
+        files["/".join(comps) + "/keep"] = ""
+        src = h + ".db 1\n"
+        args = ["-l", "-o", path]
     elif res == "equ_text":
         src = h + "eq_name equ " + "1 + " * (n // 4) + "1\n.db 1\n"
     elif res == "define_text":
@@ -201,12 +220,13 @@ def run_one(a):
     with open(os.path.join(wd, "t.asm"), "wb") as fh:
         fh.write(src if isinstance(src, bytes) else src.encode("latin-1"))
     for fn, body in files.items():
+        os.makedirs(os.path.dirname(os.path.join(wd, fn)), exist_ok=True)
         with open(os.path.join(wd, fn), "w") as fh:
             fh.write(body)
     env = dict(os.environ)
     env["ASAN_OPTIONS"] = "detect_leaks=0:abort_on_error=0:exitcode=97:allocator_may_return_null=1"
     env["UBSAN_OPTIONS"] = "halt_on_error=1:exitcode=98"
-    cmd = "exec " + " ".join([exe] + ["'%s'" % x for x in args] + ["-o", "t.hex", "t.asm"])
+    cmd = "exec " + " ".join([exe] + ["'%s'" % x for x in args] + ([] if "-o" in args else ["-o", "t.hex"]) + ["t.asm"])
     try:
         p = subprocess.run(["bash", "-c", cmd], cwd=wd, env=env, stdout=subprocess.PIPE, stderr=subprocess.PIPE, timeout=to)
         rc, out, err = p.returncode, p.stdout.decode("latin-1"), p.stderr.decode("latin-1")
@@ -310,10 +330,12 @@ def run(tier, seed):
                     "cpu_open_bracket_eof": "  %s r1, %s5" % (mn, "[" * min(n, 40))}[c["res"]]
             add("limit", "%s:%s@%s%s" % (c["res"], "gt" if n > 16 else "le", cpu, "" if mi == 0 else ":" + mn), ".%s\n%s" % (cpu, body), to=20)
     for c in lim:
-        if c["len"] > 70000 and c["res"] not in ("repeat_count", "resb", "data_fill"):
+        if c["len"] > 70000 and c["res"] not in ("repeat_count", "resb", "data_fill", "empty_define_uses"):
             continue
         if c["res"] in ("nest_include",) and c["len"] > 600:
             continue
+        if c["res"] == "out_path" and c["len"] > 3500:
+            continue            # beyond PATH_MAX the file system refuses the path before naken_asm sees it
         if c["res"] == "pass_only":
             src, files, args = render_pass(c["guard"], c["later"], c["stmt"])
             add("limit", "pass_only:%s:%s:%s" % (c["guard"], c["later"], c["stmt"]), src, files, args, 30)
